@@ -31,6 +31,7 @@ Definition run_sub (sc : scope) (restarts : nat) (a : action) : option state :=
       then (if max_varnish_restarts <? restarts + 1 then None else Some (St SRestart))
       else None
   | AFail => None
+  | AAbsent => Some NONE      (* every Process* function falls back to its default state *)
   end.
 
 (* ---------- state that outlives a request ---------- *)
@@ -139,17 +140,19 @@ Record ctx := mkC {
   c_cached : bool;           (* process.Cached *)
   c_obj : bool;              (* ctx.Object != nil *)
   c_beresp : bool;           (* ctx.BackendResponse != nil *)
-  c_resp : option xst;       (* ctx.Response != nil, with its X-Cache header *)
+  c_resp : option (xst * nat); (* ctx.Response != nil, with its X-Cache and X-Cache-Hits headers *)
   c_trace : list event;      (* process.Flows, newest first *)
   c_obs : list Z;            (* values logged by the rate-limit calls, newest first *)
-  c_objttl : Z               (* ctx.ObjectTTL: stays for the rest of the request once vcl_hit has set it *)
+  c_objttl : Z;              (* ctx.ObjectTTL: stays for the rest of the request once vcl_hit has set it *)
+  c_pass : bool;             (* Interpreter.passed: this restart round went through vcl_pass *)
+  c_hit : option nat         (* ctx.CacheHitItem != nil, with its Hits *)
 }.
-Definition ctx0 : ctx := mkC 0 XNone false false false None [] [] 0.
+Definition ctx0 : ctx := mkC 0 XNone false false false None [] [] 0 false None.
 
 Definition call (orc : oracle) (n : dnode) (c : ctx) : ctx * option state :=
   let a := orc (scope_of n) (c_restarts c) in
   (mkC (c_restarts c) (c_state c) (c_cached c) (c_obj c) (c_beresp c) (c_resp c)
-       ((n, c_restarts c, a) :: c_trace c) (c_obs c) (c_objttl c),
+       ((n, c_restarts c, a) :: c_trace c) (c_obs c) (c_objttl c) (c_pass c) (c_hit c),
    run_sub (scope_of n) (c_restarts c) a).
 
 Inductive node := NRecv | NHit | NMiss | NPass | NFetch | NError | NDeliver | NLog.
@@ -158,20 +161,24 @@ Inductive next := Goto (n : node) | Done | Fail.
 (* Interpreter.restart *)
 Definition do_restart (c : ctx) : ctx * next :=
   if max_varnish_restarts <? c_restarts c + 1 then (c, Fail)
-  else (mkC (S (c_restarts c)) (c_state c) (c_cached c) false false None (c_trace c) (c_obs c) (c_objttl c), Goto NRecv).
+  else (mkC (S (c_restarts c)) (c_state c) (c_cached c) false false None (c_trace c) (c_obs c) (c_objttl c) (c_pass c) None, Goto NRecv).
 
 Definition set_branch (c : ctx) (x : xst) (cached : bool) : ctx :=
-  mkC (c_restarts c) x cached (c_obj c) (c_beresp c) (c_resp c) (c_trace c) (c_obs c) (c_objttl c).
+  mkC (c_restarts c) x cached (c_obj c) (c_beresp c) (c_resp c) (c_trace c) (c_obs c) (c_objttl c) (c_pass c) (c_hit c).
 Definition set_obj (c : ctx) : ctx :=
-  mkC (c_restarts c) (c_state c) (c_cached c) true (c_beresp c) (c_resp c) (c_trace c) (c_obs c) (c_objttl c).
+  mkC (c_restarts c) (c_state c) (c_cached c) true (c_beresp c) (c_resp c) (c_trace c) (c_obs c) (c_objttl c) (c_pass c) (c_hit c).
 Definition set_beresp (c : ctx) : ctx :=
-  mkC (c_restarts c) (c_state c) (c_cached c) (c_obj c) true (c_resp c) (c_trace c) (c_obs c) (c_objttl c).
+  mkC (c_restarts c) (c_state c) (c_cached c) (c_obj c) true (c_resp c) (c_trace c) (c_obs c) (c_objttl c) (c_pass c) (c_hit c).
 Definition set_resp (c : ctx) : ctx :=
-  mkC (c_restarts c) (c_state c) (c_cached c) (c_obj c) (c_beresp c) (Some (c_state c)) (c_trace c) (c_obs c) (c_objttl c).
+  mkC (c_restarts c) (c_state c) (c_cached c) (c_obj c) (c_beresp c) (Some (c_state c, match c_hit c with Some h => h | None => 0 end)) (c_trace c) (c_obs c) (c_objttl c) (c_pass c) (c_hit c).
 Definition add_obs (c : ctx) (o : list Z) : ctx :=
-  mkC (c_restarts c) (c_state c) (c_cached c) (c_obj c) (c_beresp c) (c_resp c) (c_trace c) (rev o ++ c_obs c) (c_objttl c).
+  mkC (c_restarts c) (c_state c) (c_cached c) (c_obj c) (c_beresp c) (c_resp c) (c_trace c) (rev o ++ c_obs c) (c_objttl c) (c_pass c) (c_hit c).
 Definition set_objttl (c : ctx) (t : Z) : ctx :=
-  mkC (c_restarts c) (c_state c) (c_cached c) (c_obj c) (c_beresp c) (c_resp c) (c_trace c) (c_obs c) t.
+  mkC (c_restarts c) (c_state c) (c_cached c) (c_obj c) (c_beresp c) (c_resp c) (c_trace c) (c_obs c) t (c_pass c) (c_hit c).
+Definition set_pass (c : ctx) (b : bool) : ctx :=
+  mkC (c_restarts c) (c_state c) (c_cached c) (c_obj c) (c_beresp c) (c_resp c) (c_trace c) (c_obs c) (c_objttl c) b (c_hit c).
+Definition set_hit (c : ctx) (h : option nat) : ctx :=
+  mkC (c_restarts c) (c_state c) (c_cached c) (c_obj c) (c_beresp c) (c_resp c) (c_trace c) (c_obs c) (c_objttl c) (c_pass c) h.
 Definition set_cache (p : persistent) (cch : cache) : persistent := mkP cch (p_rc p) (p_pb p).
 
 (* ProcessHash: only `hash` or falling off the end is accepted *)
@@ -185,7 +192,7 @@ Definition process_hash (orc : oracle) (tag : dnode) (c : ctx) : ctx * bool :=
 Definition process_recv (orc : oracle) (q : request) (c : ctx) (p : persistent) : ctx * persistent * next :=
   let r0 := c_restarts c in
   let (p1, obs) := run_ops (q_now q) (q_ops q r0) p in
-  let (c1, r) := call orc DRecv (add_obs c obs) in
+  let (c1, r) := call orc DRecv (set_pass (add_obs c obs) false) in
   match r with
   | None => (c1, p1, Fail)
   | Some (St SPass) =>
@@ -197,7 +204,7 @@ Definition process_recv (orc : oracle) (q : request) (c : ctx) (p : persistent) 
       let (c3, ok) := process_hash orc DHashL c1 in
       if negb ok then (c3, p1, Fail)
       else match cache_get (q_now q) (q_hash q r0) (p_cache p1) with
-           | (Some _, cch) => (set_obj (set_branch c3 XHit true), set_cache p1 cch, Goto NHit)
+           | (Some it, cch) => (set_hit (set_obj (set_branch c3 XHit true)) (Some (hits it)), set_cache p1 cch, Goto NHit)
            | (None, cch) => (set_branch c3 XMiss false, set_cache p1 cch, Goto NMiss)
            end
   | Some _ => (c1, p1, Fail)
@@ -233,7 +240,8 @@ Definition process_miss (orc : oracle) (q : request) (c : ctx) (p : persistent) 
   | Some _ => (c1, p, Fail)
   end.
 
-Definition process_pass (orc : oracle) (q : request) (c : ctx) (p : persistent) : ctx * persistent * next :=
+Definition process_pass (orc : oracle) (q : request) (c0 : ctx) (p : persistent) : ctx * persistent * next :=
+  let c := set_pass c0 true in
   if negb (q_backend q) then (c, p, Fail) else
   let (c1, r) := call orc DPass c in
   match r with
@@ -243,7 +251,8 @@ Definition process_pass (orc : oracle) (q : request) (c : ctx) (p : persistent) 
   | Some _ => (c1, p, Fail)
   end.
 
-(* ProcessFetch: the backend is asked first; updateCache runs after vcl_fetch whatever it returned *)
+(* ProcessFetch: the backend is asked first; updateCache runs only for a round that did not go through
+   vcl_pass and whose vcl_fetch ended with deliver / deliver_stale (or fell off the end) *)
 Definition process_fetch (orc : oracle) (q : request) (c : ctx) (p : persistent) : ctx * persistent * next :=
   let r0 := c_restarts c in
   match q_bresp q r0 with
@@ -253,7 +262,8 @@ Definition process_fetch (orc : oracle) (q : request) (c : ctx) (p : persistent)
       match r with
       | None => (c1, p, Fail)
       | Some st =>
-          let p1 := if cacheable && (0 <? ttl)%Z
+          let accepted := match st with NONE | St SDeliver | St SDeliverStale => true | _ => false end in
+          let p1 := if negb (c_pass c) && accepted && cacheable && (0 <? ttl)%Z
                     then set_cache p (cache_store (q_hash q r0) (mkItem (q_now q + ttl)%Z (q_now q) 0) (p_cache p))
                     else p in
           match st with
@@ -327,17 +337,22 @@ Record report := mkR {
   r_restarts : nat;
   r_cached : bool;
   r_xcache : option xst;       (* client_response.headers["x-cache"] *)
+  r_xhits : option nat;        (* client_response.headers["x-cache-hits"] *)
   r_error : bool;
   r_obs : list Z
 }.
-Definition r_flows (r : report) : list scope := map (fun e => scope_of (fst (fst e))) (r_trace r).
+(* process.Flows: a subroutine that is not defined leaves no entry *)
+Definition is_absent (e : event) : bool := match snd e with AAbsent => true | _ => false end.
+Definition r_flows (r : report) : list scope :=
+  map (fun e => scope_of (fst (fst e))) (filter (fun e => negb (is_absent e)) (r_trace r)).
 
 Definition sm_fuel : nat := 7 * (max_varnish_restarts + 1).
 
 Definition run_request (orc : oracle) (p : persistent) (q : request) : res (report * persistent) :=
   match run sm_fuel orc q NRecv ctx0 p with
   | OK (c, p', err) =>
-      OK (mkR (rev (c_trace c)) (c_restarts c) (c_cached c) (c_resp c) err (rev (c_obs c)), p')
+      OK (mkR (rev (c_trace c)) (c_restarts c) (c_cached c) (option_map fst (c_resp c)) (option_map snd (c_resp c))
+              err (rev (c_obs c)), p')
   | Err => Err
   | Crash => Crash
   | OutOfFuel => OutOfFuel
